@@ -457,21 +457,33 @@ Proof.
 Qed.
 
 (* ---------- the sheet loop ---------- *)
+(* a record of the sheet itself (depth 1: inside the sheet's BOF, outside any nested substream) *)
 Lemma loop_frame : forall f t body rest cells fpos fmls cells' fpos' fmls',
-  t < 65536 -> lenN body < 65536 -> starts_cont rest = false ->
+  t < 65536 -> lenN body < 65536 -> starts_cont rest = false -> t <> 2057 ->
   step (mkRec t body None) cells fpos fmls = Ok (Next cells' fpos' fmls') ->
-  sheet_loop (S f) (frame t body ++ rest) cells fpos fmls = sheet_loop f rest cells' fpos' fmls'.
+  sheet_loop (S f) (frame t body ++ rest) cells fpos fmls 1 = sheet_loop f rest cells' fpos' fmls' 1.
 Proof.
-  intros f t body rest cells fpos fmls cells' fpos' fmls' Ht Hb Hs Hstep.
+  intros f t body rest cells fpos fmls cells' fpos' fmls' Ht Hb Hs Hne Hstep.
   cbn [BiffRec.sheet_loop]. rewrite next_record_frame by assumption.
-  cbn [obind fst snd]. rewrite Hstep. reflexivity.
+  cbn [obind fst snd f_typ]. replace (t =? 2057) with false by lia.
+  change (1 <? 1) with false. cbv iota. rewrite Hstep. reflexivity.
 Qed.
 
 Lemma loop_eof : forall f rest cells fpos fmls, starts_cont rest = false ->
-  sheet_loop (S f) (frame 10 [] ++ rest) cells fpos fmls = Ok (cells, fmls).
+  sheet_loop (S f) (frame 10 [] ++ rest) cells fpos fmls 1 = Ok (cells, fmls).
 Proof.
   intros f rest cells fpos fmls Hs. cbn [BiffRec.sheet_loop].
   rewrite next_record_frame by (try exact Hs; rewrite ?lenN_nil; lia). reflexivity.
+Qed.
+
+(* BOF opens a substream, whatever the depth and whatever CONTINUE records follow it *)
+Lemma loop_bof : forall f body rest cells fpos fmls dp,
+  lenN body < 65536 -> starts_cont rest = false ->
+  sheet_loop (S f) (frame 2057 body ++ rest) cells fpos fmls dp =
+  sheet_loop f rest cells fpos fmls (dp + 1).
+Proof.
+  intros f body rest cells fpos fmls dp Hb Hs. cbn [BiffRec.sheet_loop].
+  rewrite next_record_frame by (try assumption; lia). reflexivity.
 Qed.
 
 Lemma step_other : forall t body cells fpos fmls, interpreted t = false ->
@@ -681,18 +693,93 @@ Qed.
 
 Lemma loop_frame_cont : forall f t body conts rest cells fpos fmls cells' fpos' fmls',
   t < 65536 -> lenN body < 65536 -> conts <> [] -> Forall cont_ok conts ->
-  starts_cont rest = false -> (length conts < f)%nat ->
+  starts_cont rest = false -> (length conts < f)%nat -> t <> 2057 ->
   step (mkRec t body (Some conts)) cells fpos fmls = Ok (Next cells' fpos' fmls') ->
-  sheet_loop (S f) (frame t body ++ flat_map (frame 60) conts ++ rest) cells fpos fmls =
-  sheet_loop f rest cells' fpos' fmls'.
+  sheet_loop (S f) (frame t body ++ flat_map (frame 60) conts ++ rest) cells fpos fmls 1 =
+  sheet_loop f rest cells' fpos' fmls' 1.
 Proof.
-  intros f t body conts rest cells fpos fmls cells' fpos' fmls' Ht Hb Hne HF Hs Hf Hstep.
+  intros f t body conts rest cells fpos fmls cells' fpos' fmls' Ht Hb Hne HF Hs Hf Hn Hstep.
   cbn [BiffRec.sheet_loop]. rewrite next_record_frame_cont by assumption.
-  cbn [obind fst snd]. rewrite Hstep. reflexivity.
+  cbn [obind fst snd f_typ]. replace (t =? 2057) with false by lia.
+  change (1 <? 1) with false. cbv iota. rewrite Hstep. reflexivity.
+Qed.
+
+(* ---- inside a nested substream (depth > 1): every record is skipped, BOF and EOF move the
+   depth; the record may carry any CONTINUE records ---- *)
+Lemma next_record_srec : forall fuel r rest, wf_srec r = true -> starts_cont rest = false ->
+  (length (sr_conts r) < fuel)%nat ->
+  exists c, next_record fuel (enc_srec r ++ rest) = Some (Ok (mkRec (sr_typ r) (sr_body r) c, rest)).
+Proof.
+  intros fuel [t b cs] rest Hwf Hs Hf. unfold wf_srec in Hwf. cbn [sr_typ sr_body sr_conts] in *.
+  apply andb_true_iff in Hwf as [Hwf Hcs]. apply andb_true_iff in Hwf as [Hwf Hb].
+  apply andb_true_iff in Hwf as [Ht Hne].
+  unfold enc_srec. cbn [sr_typ sr_body sr_conts]. rewrite <- app_assoc.
+  destruct cs as [|c cs].
+  - exists None. cbn [flat_map app]. apply next_record_frame; try assumption; lia.
+  - exists (Some (c :: cs)). apply next_record_frame_cont; try assumption; try lia; try discriminate.
+    apply Forall_forall. intros x Hx. rewrite forallb_forall in Hcs. specialize (Hcs x Hx).
+    unfold cont_ok. lia.
+Qed.
+
+Lemma enc_srec_starts : forall r tail, wf_srec r = true -> starts_cont (enc_srec r ++ tail) = false.
+Proof.
+  intros [t b cs] tail Hwf. unfold wf_srec in Hwf. cbn [sr_typ sr_body sr_conts] in *.
+  unfold enc_srec. cbn [sr_typ sr_body sr_conts]. rewrite <- app_assoc.
+  apply starts_cont_frame; lia.
+Qed.
+
+Lemma srecs_start : forall recs rest, forallb wf_srec recs = true -> starts_cont rest = false ->
+  starts_cont (flat_map enc_srec recs ++ rest) = false.
+Proof.
+  intros [|r recs] rest Hwf Hs; [exact Hs|].
+  cbn [flat_map forallb] in *. apply andb_true_iff in Hwf as [Hr _].
+  rewrite <- app_assoc. apply enc_srec_starts, Hr.
+Qed.
+
+Definition sconts (recs : list srec) : nat :=
+  fold_right (fun r n => (length (sr_conts r) + n)%nat) 0%nat recs.
+
+(* the records of a nested substream with [d] more substreams open inside it, BOF and EOF
+   balanced: the loop comes out at the depth of the nested substream (2) with nothing changed —
+   whatever the record types: cell records, FORMULA, STRING, MERGECELLS, DIMENSIONS … *)
+Lemma sub_loop : forall recs d f rest cells fpos fmls,
+  forallb wf_srec recs = true -> balanced d recs = true -> starts_cont rest = false ->
+  (sconts recs < f)%nat ->
+  sheet_loop (length recs + f) (flat_map enc_srec recs ++ rest) cells fpos fmls (2 + N.of_nat d) =
+  sheet_loop f rest cells fpos fmls 2.
+Proof.
+  induction recs as [|r recs IH]; intros d f rest cells fpos fmls Hwf Hbal Hs Hf.
+  - cbn [balanced] in Hbal. destruct d; [|discriminate]. reflexivity.
+  - cbn [forallb] in Hwf. apply andb_true_iff in Hwf as [Hr Hrest].
+    cbn [sconts fold_right] in Hf. fold (sconts recs) in Hf.
+    cbn [flat_map length Nat.add]. rewrite <- app_assoc.
+    destruct (@next_record_srec (length recs + f) r (flat_map enc_srec recs ++ rest) Hr
+                (srecs_start recs rest Hrest Hs)) as [c Hn]; [lia|].
+    cbn [BiffRec.sheet_loop]. rewrite Hn. cbn [obind fst snd f_typ].
+    cbn [balanced] in Hbal.
+    destruct (sr_typ r =? 2057) eqn:E1.
+    + replace (2 + N.of_nat d + 1) with (2 + N.of_nat (S d)) by lia.
+      apply IH; try assumption; lia.
+    + replace (1 <? 2 + N.of_nat d) with true by lia.
+      destruct (sr_typ r =? 10) eqn:E2.
+      * destruct d as [|d']; [discriminate|].
+        replace (2 + N.of_nat (S d') - 1) with (2 + N.of_nat d') by lia.
+        apply IH; try assumption; lia.
+      * apply IH; try assumption; lia.
+Qed.
+
+(* the EOF of the nested substream brings the loop back to the sheet *)
+Lemma loop_sub_eof : forall f rest cells fpos fmls, starts_cont rest = false ->
+  sheet_loop (S f) (frame 10 [] ++ rest) cells fpos fmls 2 = sheet_loop f rest cells fpos fmls 1.
+Proof.
+  intros f rest cells fpos fmls Hs. cbn [BiffRec.sheet_loop].
+  rewrite next_record_frame by (try exact Hs; rewrite ?lenN_nil; lia). reflexivity.
 Qed.
 
 (* ---- ignored records in a row: nothing changes, in particular not the pending position ---- *)
 Lemma not_interpreted_60 : forall t, interpreted t = false -> t <> 60.
+Proof. intros t H ->. vm_compute in H. discriminate. Qed.
+Lemma not_interpreted_bof : forall t, interpreted t = false -> t <> 2057.
 Proof. intros t H ->. vm_compute in H. discriminate. Qed.
 
 Lemma wf_mid_split : forall t b, wf_mid (t, b) = true ->
@@ -715,8 +802,8 @@ Qed.
 
 Lemma mids_loop : forall mids f rest cells fpos fmls,
   forallb wf_mid mids = true -> starts_cont rest = false ->
-  sheet_loop (length mids + f) (flat_map enc_mid mids ++ rest) cells fpos fmls =
-  sheet_loop f rest cells fpos fmls.
+  sheet_loop (length mids + f) (flat_map enc_mid mids ++ rest) cells fpos fmls 1 =
+  sheet_loop f rest cells fpos fmls 1.
 Proof.
   induction mids as [|[t b] mids IH]; intros f rest cells fpos fmls Hwf Hs; [reflexivity|].
   cbn [forallb] in Hwf. apply andb_true_iff in Hwf as [Hm Hrest].
@@ -726,6 +813,7 @@ Proof.
              cells fpos fmls); try lia.
   - apply IH; assumption.
   - apply mids_start; assumption.
+  - apply not_interpreted_bof, Hni.
   - apply step_other, Hni.
 Qed.
 
@@ -871,23 +959,28 @@ Definition nrec (it : item) : nat :=
   match it with
   | IFormula _ _ _ c _ _ _ mid =>
       S (length mid + match c with CStr _ _ => 1 | _ => 0 end)
+  | ISub _ recs => S (length recs + 1)
   | _ => 1
   end.
 Definition ncont (it : item) : nat :=
-  match it with IFormula _ _ _ (CStr _ more) _ _ _ _ => length more | _ => 0%nat end.
+  match it with
+  | IFormula _ _ _ (CStr _ more) _ _ _ _ => length more
+  | ISub _ recs => sconts recs
+  | _ => 0%nat
+  end.
 Definition nrecs (l : list item) : nat := fold_right (fun it n => (nrec it + n)%nat) 0%nat l.
 Definition nconts (l : list item) : nat := fold_right (fun it n => (ncont it + n)%nat) 0%nat l.
 
 Lemma item_loop : forall it f rest cells fpos fmls,
   wf_item it = true -> starts_cont rest = false -> (ncont it < f)%nat ->
   exists fpos',
-    sheet_loop (nrec it + f) (enc_item it ++ rest) cells fpos fmls =
-    sheet_loop f rest (cells ++ item_cells it) fpos' (fmls ++ item_fmls it).
+    sheet_loop (nrec it + f) (enc_item it ++ rest) cells fpos fmls 1 =
+    sheet_loop f rest (cells ++ item_cells it) fpos' (fmls ++ item_fmls it) 1.
 Proof.
   intros it f rest cells fpos fmls Hwf Hs Hfuel.
   destruct it as [row col ixfe bits|row col ixfe fm|row cf rks|row col ixfe isst|row col ixfe s
                  |row col ixfe b|row col ixfe e|row col ixfe c grbit chn fmla mid
-                 |wide rf rl cf cl|typ body];
+                 |wide rf rl cf cl|typ body|bof recs|regs];
     cbn [wf_item] in Hwf;
     cbn [enc_item nrec BiffRec.item_cells item_fmls Nat.add];
     rewrite ?app_nil_r.
@@ -944,11 +1037,11 @@ Proof.
     assert (Hhead : forall g tail, starts_cont tail = false ->
               sheet_loop (S (length mid + g))
                 (frame 6 (formula_body row col ixfe c grbit chn fmla)
-                 ++ flat_map enc_mid mid ++ tail) cells fpos fmls =
+                 ++ flat_map enc_mid mid ++ tail) cells fpos fmls 1 =
               sheet_loop g tail
                 (match formula_result ixfe c with
                  | Some x => cells ++ [((row, col), x)] | None => cells end)
-                (row, col) (fmls ++ [(row, col)])).
+                (row, col) (fmls ++ [(row, col)]) 1).
     { intros g tail Ht.
       rewrite (@loop_frame (length mid + g) 6 (formula_body row col ixfe c grbit chn fmla)
                  (flat_map enc_mid mid ++ tail) cells fpos fmls
@@ -997,8 +1090,37 @@ Proof.
       rewrite !lenN_app, !lenN_le, !lenN_cons, lenN_nil; cbn; lia).
   - (* ignored record *)
     apply andb_true_iff in Hwf as [Hwf Hl]. apply andb_true_iff in Hwf as [Ht Hni].
+    assert (Hi : interpreted typ = false) by (destruct (interpreted typ); [discriminate|reflexivity]).
     exists fpos. rewrite ?app_nil_r. apply loop_frame; try assumption; try lia.
-    apply step_other. destruct (interpreted typ); [discriminate|reflexivity].
+    + apply not_interpreted_bof, Hi.
+    + apply step_other, Hi.
+  - (* nested substream: BOF, its records, EOF — nothing reaches the sheet *)
+    apply andb_true_iff in Hwf as [Hwf Hbal]. apply andb_true_iff in Hwf as [Hb Hrecs].
+    cbn [ncont] in Hfuel.
+    exists fpos. rewrite ?app_nil_r, <- ?app_assoc.
+    assert (Heof : starts_cont (frame 10 [] ++ rest) = false) by (apply starts_cont_frame; lia).
+    rewrite loop_bof; [|lia|apply srecs_start; assumption].
+    replace (length recs + 1 + f)%nat with (length recs + S f)%nat by lia.
+    change (1 + 1) with (2 + N.of_nat 0).
+    rewrite sub_loop by (try assumption; lia).
+    apply loop_sub_eof, Hs.
+  - (* MERGECELLS: long enough for the regions it announces *)
+    exists fpos. rewrite ?app_nil_r.
+    assert (HL : lenN (le_bytes 2 (lenN regs) ++ flat_map enc_ref8 regs) = 2 + 8 * lenN regs).
+    { assert (HF : lenN (flat_map enc_ref8 regs) = 8 * lenN regs).
+      { clear Hwf Hfuel. induction regs as [|[[[a b] c] d] regs IH]; [reflexivity|].
+        cbn [flat_map]. rewrite lenN_app, lenN_cons, IH. unfold enc_ref8.
+        rewrite !lenN_app, !lenN_le. cbn [N.of_nat Pos.of_succ_nat Pos.succ]. lia. }
+      rewrite lenN_app, lenN_le, HF. reflexivity. }
+    apply loop_frame; try assumption; try lia.
+    unfold BiffRec.step. cbn [f_typ f_data]. change (229 =? 512) with false.
+    change (229 =? 515) with false. change (229 =? 516) with false. change (229 =? 517) with false.
+    change (229 =? 519) with false. change (229 =? 638) with false. change (229 =? 253) with false.
+    change (229 =? 189) with false. change (229 =? 229) with true. cbv iota.
+    unfold merge_cells_panics. rewrite HL. rewrite rd2 by lia.
+    replace (2 + 8 * lenN regs <? 2) with false by lia.
+    replace (2 + 8 * lenN regs <? 2 + 8 * lenN regs) with false by lia.
+    rewrite andb_false_r. reflexivity.
 Qed.
 
 (* every item starts with a record whose type is not CONTINUE *)
@@ -1007,13 +1129,14 @@ Proof.
   intros it tail Hwf.
   destruct it as [row col ixfe bits|row col ixfe fm|row cf rks|row col ixfe isst|row col ixfe s
                  |row col ixfe b|row col ixfe e|row col ixfe c grbit chn fmla mid
-                 |wide rf rl cf cl|typ body]; cbn [enc_item];
+                 |wide rf rl cf cl|typ body|bof recs|regs]; cbn [enc_item];
     try (apply starts_cont_frame; lia).
   - rewrite <- app_assoc. apply starts_cont_frame; lia.
   - destruct wide; apply starts_cont_frame; lia.
   - cbn [wf_item] in Hwf. apply andb_true_iff in Hwf as [Hwf Hl].
     apply andb_true_iff in Hwf as [Ht Hni]. apply starts_cont_frame; [lia|].
     intros ->. discriminate.
+  - rewrite <- app_assoc. apply starts_cont_frame; lia.
 Qed.
 
 Lemma items_start : forall items rest, forallb wf_item items = true -> starts_cont rest = false ->
@@ -1027,8 +1150,8 @@ Qed.
 Lemma items_loop : forall items f rest cells fpos fmls,
   forallb wf_item items = true -> starts_cont rest = false -> (nconts items < f)%nat ->
   exists fpos',
-    sheet_loop (nrecs items + f) (flat_map enc_item items ++ rest) cells fpos fmls =
-    sheet_loop f rest (cells ++ flat_map item_cells items) fpos' (fmls ++ flat_map item_fmls items).
+    sheet_loop (nrecs items + f) (flat_map enc_item items ++ rest) cells fpos fmls 1 =
+    sheet_loop f rest (cells ++ flat_map item_cells items) fpos' (fmls ++ flat_map item_fmls items) 1.
 Proof.
   induction items as [|it items IH]; intros f rest cells fpos fmls Hwf Hs Hf.
   - exists fpos. cbn [flat_map nrecs fold_right app Nat.add]. rewrite !app_nil_r. reflexivity.
@@ -1054,10 +1177,22 @@ Proof.
   cbn [flat_map length]. rewrite app_length. specialize (H x). lia.
 Qed.
 
+Lemma srecs_length : forall recs,
+  (length recs + sconts recs <= length (flat_map enc_srec recs))%nat.
+Proof.
+  induction recs as [|r recs IH]; [cbn; lia|].
+  cbn [flat_map length sconts fold_right]. fold (sconts recs).
+  unfold enc_srec at 1. rewrite !app_length, frame_length.
+  pose proof (@flat_map_length_ge _ _ (frame 60) 4 (sr_conts r)) as Hc.
+  assert (4 * length (sr_conts r) <= length (flat_map (frame 60) (sr_conts r)))%nat.
+  { apply Hc. intros x. rewrite frame_length. lia. }
+  lia.
+Qed.
+
 (* fuel: every record the loop sees and every folded CONTINUE has at least its 4 header bytes *)
 Lemma enc_item_length : forall it, (nrec it + ncont it <= length (enc_item it))%nat.
 Proof.
-  intros it. destruct it as [| | | | | | |row col ixfe c grbit chn fmla mid|wide ? ? ? ?|];
+  intros it. destruct it as [| | | | | | |row col ixfe c grbit chn fmla mid|wide ? ? ? ?| |bof recs|];
     cbn [enc_item nrec ncont]; rewrite ?app_length, ?frame_length; try lia.
   - pose proof (@flat_map_length_ge _ _ enc_mid 4 mid) as Hm.
     assert (Hm' : (4 * length mid <= length (flat_map enc_mid mid))%nat).
@@ -1069,6 +1204,7 @@ Proof.
     { apply Hc. intros m. rewrite frame_length. lia. }
     lia.
   - destruct wide; rewrite frame_length; lia.
+  - pose proof (srecs_length recs). cbn [length]. lia.
 Qed.
 
 Lemma items_length : forall items,
@@ -1099,12 +1235,29 @@ Proof.
     exists (length bof_body + 3 + (length (flat_map enc_item items) - nrecs items)
             + (4 + length (@nil N)) + length trailer)%nat. cbn [length]. lia. }
   destruct Hfuel as (k & -> & Hk).
-  rewrite (@loop_frame (nrecs items + S k) 2057 bof_body (flat_map enc_item items ++ tail)
-             [] (0, 0) [] [] (0, 0) []); try (cbn; lia).
-  - destruct (@items_loop items (S k) tail [] (0, 0) [] Hit Htail Hk) as [fp ->].
-    unfold tail. rewrite loop_eof by exact Hs. reflexivity.
-  - apply items_start; assumption.
-  - apply step_other. reflexivity.
+  (* the sheet's own BOF: depth 0 -> 1 *)
+  rewrite loop_bof; [|cbn; lia|apply items_start; assumption]. change (0 + 1) with 1.
+  destruct (@items_loop items (S k) tail [] (0, 0) [] Hit Htail Hk) as [fp ->].
+  unfold tail. rewrite loop_eof by exact Hs. reflexivity.
+Qed.
+
+(* a nested substream is inert: the sheet reads exactly as it does without it, wherever it stands
+   among the items and whatever records it holds (cell records at positions of the sheet's own
+   cells, FORMULA, STRING, MERGECELLS, DIMENSIONS, further BOF … EOF pairs, CONTINUE records) *)
+Theorem nested_substream_inert : forall before bof recs after trailer,
+  wf_layout (mkLayout (before ++ ISub bof recs :: after) trailer) = true ->
+  wf_layout (mkLayout (before ++ after) trailer) = true /\
+  sheet_cells fdiv100 decode16 en (encode_sheet (mkLayout (before ++ ISub bof recs :: after) trailer)) =
+  sheet_cells fdiv100 decode16 en (encode_sheet (mkLayout (before ++ after) trailer)).
+Proof.
+  intros before bof recs after trailer Hwf.
+  assert (Hwf' : wf_layout (mkLayout (before ++ after) trailer) = true).
+  { unfold wf_layout in *. cbn [l_items l_trailer] in *. rewrite forallb_app in *. cbn [forallb] in Hwf.
+    apply andb_true_iff in Hwf as [Hi Ht]. apply andb_true_iff in Hi as [H1 H2].
+    apply andb_true_iff in H2 as [_ H2]. rewrite H1, H2, Ht. reflexivity. }
+  split; [exact Hwf'|].
+  rewrite !sheet_cells_encode by assumption. unfold logical, layout_fmls. cbn [l_items].
+  rewrite !flat_map_app. reflexivity.
 Qed.
 
 End Biff.
@@ -1134,7 +1287,7 @@ Proof.
   intros it Hwf.
   destruct it as [row col ixfe bits|row col ixfe fm|row cf rks|row col ixfe isst|row col ixfe s
                  |row col ixfe b|row col ixfe e|row col ixfe c grbit chn fmla mid
-                 |wide rf rl cf cl|typ body]; cbn [wf_item] in Hwf; cbn [item_cells];
+                 |wide rf rl cf cl|typ body|bof recs|regs]; cbn [wf_item] in Hwf; cbn [item_cells];
     try (constructor; [unfold in_grid, wf_cell in *; cbn [fst snd]; lia|constructor]);
     try constructor.
   - apply mulrk_denote_grid; lia.
@@ -1572,16 +1725,37 @@ Proof.
   - split; [exact I|]. intros rr Hrr. inversion Hrr; subst. cbn [snd]. lia.
 Qed.
 
-Lemma sheet_loop_safe : forall f s cells fpos fmls, (length s <= f)%nat ->
-  safe (sheet_loop fdiv100 decode16 en (S f) s cells fpos fmls).
+Lemma sheet_loop_S : forall f s cells fpos fmls dp,
+  sheet_loop fdiv100 decode16 en (S f) s cells fpos fmls dp =
+  match next_record f s with
+  | None => Ok (cells, fmls)
+  | Some o =>
+      do rr <- o;
+      let t := f_typ (fst rr) in
+      if t =? 2057 then sheet_loop fdiv100 decode16 en f (snd rr) cells fpos fmls (dp + 1)
+      else if 1 <? dp then
+        sheet_loop fdiv100 decode16 en f (snd rr) cells fpos fmls (if t =? 10 then dp - 1 else dp)
+      else
+      do fl <- step fdiv100 decode16 en (fst rr) cells fpos fmls;
+      match fl with
+      | Stop => Ok (cells, fmls)
+      | Next cells' fpos' fmls' => sheet_loop fdiv100 decode16 en f (snd rr) cells' fpos' fmls' dp
+      end
+  end.
+Proof. reflexivity. Qed.
+
+Lemma sheet_loop_safe : forall f s cells fpos fmls dp, (length s <= f)%nat ->
+  safe (sheet_loop fdiv100 decode16 en (S f) s cells fpos fmls dp).
 Proof.
-  induction f as [|f IH]; intros s cells fpos fmls H.
+  induction f as [|f IH]; intros s cells fpos fmls dp H.
   - destruct s; [|cbn [length] in H; lia]. exact I.
-  - cbn [sheet_loop]. pose proof (@next_record_safe (S f) s H) as NR.
+  - rewrite sheet_loop_S. cbv zeta. pose proof (@next_record_safe (S f) s H) as NR.
     destruct (next_record (S f) s) as [o|]; [|exact I].
     destruct NR as [So Hl]. destruct o as [rr|e| |]; cbn [safe] in So; try contradiction;
       cbn [obind]; [|exact I].
     specialize (Hl rr eq_refl).
+    destruct (f_typ (fst rr) =? 2057); [apply IH; lia|].
+    destruct (1 <? dp); [apply IH; lia|].
     pose proof (step_safe (fst rr) cells fpos fmls) as St.
     destruct (step fdiv100 decode16 en (fst rr) cells fpos fmls) as [fl|e| |];
       cbn [safe] in St; try contradiction; cbn [obind]; [|exact I].
@@ -1743,11 +1917,33 @@ Definition ex_shrfmla : midrec := (1212, [3; 0; 4; 0; 2; 2; 0; 2; 3; 0; 30; 1; 0
 Definition ex_array : midrec := (545, [4; 0; 4; 0; 1; 1; 0; 0; 0; 0; 0; 0; 3; 0; 30; 1; 0]).
 Definition ex_table : midrec := (566, [5; 0; 6; 0; 1; 2; 0; 0; 5; 0; 0; 0; 0; 0; 0; 0]).
 
+(* the chart substream of an embedded chart object as Excel writes it (shortened): Units, Chart,
+   Begin / End, the DIMENSIONS of the series cache, SIIndex 1 with two NUMBER records at
+   (0,0) and (1,2) — the second collides with a cell of the sheet —, SIIndex 2 with a LABEL, a
+   BOOLERR, then shapes no chart has but the format does not forbid inside a nested substream:
+   FORMULA + STRING, MERGECELLS, a record followed by two CONTINUE records, a further BOF … EOF
+   pair holding an RK record *)
+Definition ex_chart : item :=
+  ISub [0; 6; 32; 0; 187; 13; 204; 7; 0; 0; 0; 0; 6; 3; 0; 0]
+    [mkSrec 4097 [0; 0] []; mkSrec 4098 [0;0;0;0; 0;0;0;0; 100;0;0;0; 100;0;0;0] [];
+     mkSrec 4147 [] []; mkSrec 4148 [] [];
+     mkSrec 512 [0;0;0;0; 2;0;0;0; 0;0; 2;0; 0;0] [];
+     mkSrec 4197 [1; 0] [];
+     mkSrec 515 [0;0; 0;0; 0;0; 0;0;0;0;0;0;36;64] []; mkSrec 515 [1;0; 2;0; 0;0; 0;0;0;0;0;0;52;64] [];
+     mkSrec 4197 [2; 0] [];
+     mkSrec 516 [0;0; 0;0; 0;0; 1;0; 0; 97] []; mkSrec 517 [1;0; 0;0; 0;0; 1; 0] [];
+     mkSrec 6 [3;0; 2;0; 0;0; 0;0;0;0;0;0;255;255; 0;0; 0;0;0;0; 3;0; 30;1;0] [];
+     mkSrec 519 [1;0; 0; 120] [];
+     mkSrec 229 [1;0; 4;0; 5;0; 0;0; 1;0] [];
+     mkSrec 236 [1; 2; 3] [[4; 5]; [6]];
+     mkSrec 2057 [0; 6; 32; 0] [[7]]; mkSrec 638 [1;0; 2;0; 0;0; 2;0;0;0] []; mkSrec 10 [] []].
+
 Definition example_layout : layout :=
   mkLayout [index_item 1 65536 [1234];
             IDims true 1 65536 0 256; row_item 1 2 4 255; row_item 2 1 9 255;
             INumber 1 2 0 4607182418800017408; IRk 1 3 0 (RkI (-5) false);
             IMulRk 2 1 [(0, RkI 700 true); (1, RkI 7 false); (0, RkF 267911168 true)];
+            ex_chart;
             ILabelSst 2 5 0 0; ILabelSst 2 4 0 1; blank_item 2 7 0; mulblank_item 2 8 [0; 0; 1];
             IOther 513 [1; 2; 3];
             IBool 3 0 0 true; IErr 3 1 0 ENA;
@@ -1762,6 +1958,7 @@ Definition example_layout : layout :=
             (* a numeric formula may be followed by TABLE / SHRFMLA too *)
             IFormula 5 1 0 (CBool true) 0 0 [5; 0; 1; 5; 0; 1; 0] [ex_table];
             dbcell_item 100 [20; 30];
+            ISub [] [];                          (* the smallest nested substream: BOF, EOF *)
             IDims false 1 65535 0 256;
             ILabel 65535 255 0 (mkStr [104; 300] true)] [9; 8; 16; 0].
 Definition example_env : env := mkEnv [FOther; FDateTime] false [[97; 98]; []; [99]].
@@ -1771,6 +1968,22 @@ Lemma example_legal : forall fdiv100 decode16,
         (logical fdiv100 decode16 example_env example_layout) /\
   length (logical fdiv100 decode16 example_env example_layout) = 14%nat.
 Proof. intros. repeat split; reflexivity. Qed.
+
+(* the former defect XLS-2 (audit 2): a worksheet with an embedded chart whose series cache is
+   addressed like the cells A1, A2 of the sheet, MERGECELLS behind the chart.  The sheet reads
+   back as its own cells; the chart's records change nothing. *)
+Definition chart_layout : layout :=
+  mkLayout [ILabel 0 0 0 (mkStr [78] false); ILabel 0 1 0 (mkStr [86] false);
+            ILabel 1 0 0 (mkStr [97] false); INumber 1 1 0 4621819117588971520;
+            IOther 236 [0;0;0;0;0;0;0;0]; IOther 93 [0; 0];
+            ISub [0; 6; 32; 0]
+              [mkSrec 512 [0;0;0;0; 2;0;0;0; 0;0; 1;0; 0;0] []; mkSrec 4197 [1; 0] [];
+               mkSrec 515 [0;0; 0;0; 0;0; 0;0;0;0;0;0;36;64] [];
+               mkSrec 4197 [2; 0] []; mkSrec 516 [0;0; 0;0; 0;0; 1;0; 0; 97] [];
+               mkSrec 516 [1;0; 0;0; 0;0; 1;0; 0; 98] []];
+            IOther 574 [182; 6; 0; 0];
+            IMerge [(4, 5, 0, 1)];
+            IBool 2 0 0 true] [].
 
 (* the named ignorable records are IOther items within wf_item *)
 Lemma ignorable_wf : forall row col ixfe cf ixfes cl h off offs rf rl dbs,
@@ -1800,6 +2013,18 @@ Definition cont_layout : layout :=
   mkLayout [IFormula 1 1 0 (CStr (mkStr [104] false) [mkStr [105; 8364] true]) 0 0
                      [3; 0; 30; 1; 0] [ex_shrfmla]] [].
 Definition id_decode (b : list N) : list N := b.
+
+Lemma example_chart_sheet : forall fdiv100,
+  wf_item ex_chart = true /\
+  legal fdiv100 id_decode example_env chart_layout
+        (logical fdiv100 id_decode example_env chart_layout) /\
+  sheet_model fdiv100 id_decode example_env (encode_sheet chart_layout)
+    = Ok (mkRange (0, 0) (2, 1)
+            [DString [78; 0]; DString [86; 0]; DString [97; 0]; DFloat 4621819117588971520;
+             DBool true; DEmpty]).
+Proof.
+  intros fdiv100. split; [reflexivity|]. split; [split; reflexivity|]. vm_compute. reflexivity.
+Qed.
 
 Lemma example_string_continue : forall fdiv100,
   legal fdiv100 id_decode example_env cont_layout
